@@ -51,6 +51,7 @@ func vHealthStop(h *gohealth.Health) error {
 			return gohealth.ErrAlreadyStopped
 		}
 		p.running = false
+		p.cf = 0 // go-health resets its states on Stop
 	}
 	return nil
 }
